@@ -20,7 +20,7 @@ RULE = ("pipelines x segmentation (one read, per request, 1-byte, boundary insid
         "keep_alive_max_requests {1,2,3,1000} x Connection header spellings x HTTP version; non-trivial = at least two "
         "requests were sent on the connection or a must-close condition was present; distinct = distinct case hash")
 ASSUMPTIONS = ["announcing close when the only reason is an unread request body is not demanded (statement's list)"]
-MIN_DECISIVE = {"serial": 20, "no-interleave": 20, "body-isolation": 20, "must-close": 10, "reuse": 10}
+MIN_DECISIVE = {"serial": 20, "no-interleave": 20, "body-isolation": 20, "must-close": 10, "reuse": 10, "aborted-stops-pipeline": 10}
 N_CASES = {"quick": 2500, "thorough": 60000}
 
 CONN_VALUES = [None, None, None, b"keep-alive", b"close", b"Close", b"CLOSE", b"keep-alive, close", b"foo, close", b"Keep-Alive"]
@@ -51,7 +51,39 @@ def wants_close(req):
     return any(t.strip().lower() == b"close" for t in v.split(b","))
 
 
+def _gen_aborted(rng, tier):
+    """Pipelines whose k-th response is aborted by a transport failure (a write that fails, a reset): nothing behind it may be processed."""
+    for i in range(150 if tier == "quick" else 4000):
+        nreq = rng.choice([2, 2, 3, 4])
+        victim = rng.randrange(nreq - 1)
+        by_tag, datas = {}, []
+        base = 5000000 + i * 10
+        for k in range(nreq):
+            tag = base + k
+            chunks = [b"r%d-%d;" % (tag, j) * rng.choice([1, 40]) for j in range(rng.choice([1, 2, 3]))]
+            sc = [["recv_until_end"], ["send", {"type": "http.response.start", "status": 200, "headers": [(b"x-tag", b"%d" % tag)]}]]
+            for j, c in enumerate(chunks):
+                sc.append(["send", {"type": "http.response.body", "body": c, "more_body": j < len(chunks) - 1}])
+            if rng.random() < 0.3:
+                sc.append(["sleep", 0.5])  # the instance outlives its response
+            by_tag[str(tag)] = sc
+            datas.append(b"GET /t%d HTTP/1.1\r\nHost: h\r\n\r\n" % tag)
+        # writes of a response: head, one per body chunk, (the final zero chunk); the victim's writes start after the earlier responses'
+        fault = "fail_write"
+        client = []
+        if fault == "fail_write":
+            client.append(["fail_write_at", rng.randint(1, 2 + 4 * (victim + 1))])
+        blob = b"".join(datas)
+        client.append(["feed_split", blob, [len(blob)]] if rng.random() < 0.6 else ["feed_split", blob, G.gen_splits(rng, len(blob), "k")])
+        client += [["settle"], ["advance", 1.0], ["settle"]]
+        yield {"family": "aborted.%s" % fault, "backends": ["asyncio", "trio"], "config": {"keep_alive_timeout": 5000}, "conn": {},
+               "apps": {"default": [["recv_until_end"], ["respond", 200, [], b"d"]], "by_tag": by_tag}, "client": client,
+               "truth": {"kind": "aborted", "fault": fault, "tags": [base + k for k in range(nreq)]},
+               "sched": {"seed": rng.randrange(1 << 30)}, "horizon": 100.0}
+
+
 def gen(rng, tier):
+    yield from _gen_aborted(rng, tier)
     for i in range(N_CASES[tier]):
         nreq = rng.choice([1, 2, 2, 3, 4, 6])
         maxreq = rng.choice([1, 2, 3, 1000, 1000, 1000])
@@ -103,15 +135,29 @@ def gen(rng, tier):
 
 def nontrivial(case, obs):
     t = case["truth"]
+    if t.get("kind") == "aborted":
+        return any(e[2] == "net" and e[3] == "write_error" for e in obs.trace.events)
     return len(t["requests"]) > 1 or t["maxreq"] == 1 or any(wants_close(r) or r["version"] == "1.0" for r in t["requests"])
 
 
 def check(case, obs, tally):
     out = []
     t = case["truth"]
-    reqs = t["requests"]
+    reqs = t.get("requests")
     if obs.handler == "exception":
         tally.inconclusive["handler-crashed(C04)"] += 1
+        return out
+    if t.get("kind") == "aborted":
+        lost = next((e for e in obs.trace.events if e[2] == "net" and e[3] == "write_error"), None)
+        if lost is None:
+            tally.notes["aborted:no-write-failed"] += 1
+            return out
+        tally.clause("aborted-stops-pipeline")
+        later = [e for e in obs.app_events(kind="start") if e[0] > lost[0]]
+        if later:
+            out.append({"clause": "aborted-stops-pipeline", "sig": "C06.request-processed-after-aborted-response",
+                        "detail": "a write of a response failed at seq %d (the client is gone), yet %d pipelined request(s) were then started: %r" % (
+                            lost[0], len(later), [e[4]["scope"].get("path") for e in later])})
         return out
     # ---- known deadlock mechanism: response finished while more body messages than the queue holds are unread
     open_sends = obs.open_sends()
